@@ -148,7 +148,10 @@ func workerRun(t *testing.T, prop *Prop, job *Job) {
 		seed := RunSeed(job.Seed, prop.ID, i)
 		p := prop.Gen(NewRng(seed), job.Tier, i)
 		p.Seed = seed
+		cur := job.Out + ".cur.json"
+		WriteJSON(cur, map[string]any{"index": i, "seed": seed, "program": p})
 		res := prop.Run(t, p)
+		os.Remove(cur)
 		res.Index = i
 		res.Signature = signature(p, res)
 		if prop.Nontrivial != nil {
